@@ -289,7 +289,7 @@ pub fn run(args: &Args, rep: &mut Report) {
     let raw = RawKey::from_master(&master_key());
     let quick = args.quick();
     let bound = if quick { 3 } else { 4 };
-    let max_execs = if quick { 400 } else { 40_000 };
+    let max_execs = if quick { 150 } else { 40_000 };
     rep.set_meta("bounds", json!(format!(
         "completion orders of concurrently pending backend calls with <= {bound} deviations from oldest-first, <= {max_execs} executions per driver and shard; drivers: backup (one-blob packs / 3-blob packs / default packs, mid-run index saves), prune repack (fast, slow), copy; one CPU (pariter window 2), RAYON_NUM_THREADS=1")));
     rep.set_meta("assumptions", json!(["interleavings are explored at the granularity of backend calls with all internal stages run to quiescence in between (DESIGN.md §8)"]));
